@@ -572,10 +572,10 @@ def isoptionaltype(obj: type[_OT]) -> compat.TypeIs[type[tp.Optional[_OT]]]:
     False
     """
     args = getattr(obj, "__args__", ())
-    tname = name(origin(obj))
+    orig = origin(obj)
     nullarg = next((a for a in args if a in (type(None), None)), ...)
-    isoptional = tname == "Optional" or (
-        nullarg is not ... and tname in ("Union", "UnionType", "Literal")
+    isoptional = orig is tp.Optional or (
+        nullarg is not ... and (_isunionorigin(orig) or orig is tp.Literal)
     )
     return isoptional
 
@@ -585,8 +585,12 @@ _OT = tp.TypeVar("_OT")
 
 @compat.cache
 def isuniontype(obj: type) -> compat.TypeIs[tp.Union]:
-    n = name(origin(obj))
-    return n in ("Union", "UnionType")
+    return _isunionorigin(origin(obj))
+
+
+def _isunionorigin(orig: tp.Any) -> bool:
+    # Compare by identity: a user class may be *named* `Union` or `Optional`.
+    return orig is tp.Union or orig is types.UnionType
 
 
 @compat.cache
